@@ -1398,6 +1398,11 @@ func (c *Conn) executeQuery(ctx context.Context, qry *Query) *Iter {
 			if err := marshalQueryValue(typ, value, v); err != nil {
 				return &Iter{err: err}
 			}
+			if v.name != "" && c.version < protoVersion3 {
+				// names cannot be sent before protocol 3; sending the values without
+				// them would bind them by position, i.e. possibly to other columns
+				return &Iter{err: fmt.Errorf("gocql: named values require protocol version 3 or higher, connection uses version %d", c.version)}
+			}
 			if v.isUnset && c.version < protoVersion4 {
 				// before protocol 4 a negative [bytes] length means null, so the
 				// server would overwrite the column instead of leaving it alone
